@@ -31,7 +31,7 @@ type errProv struct {
 	p        *core.Prog
 	errPkg   string // import path of the structured-error package
 	scope    func(*ssa.Function) bool
-	errT     *types.Named // errors.Error
+	errT     *types.Named      // errors.Error
 	codeOf   map[string]string // builder function name -> code ("E2001")
 	ctlLocal bool
 }
